@@ -187,6 +187,46 @@ def scen_restore_exp(env, has_allowed, has_check, schema_kind):
             env.check('restore-exp', And_(ie.state == 'expired', eq_(ie.output, out_e)), info=lambda: (pv, ie.state, ie.output))
 
 
+def scen_unhashable(env, kind):
+    """'a value is accepted iff it is among allowed': a value that cannot even be hashed (a list, a dict) is simply not
+    among them - the put returns False and nothing else happens (docs: allowed is equivalent to
+    check=lambda value: value in ALLOWED)"""
+    circ = sync_circuit()
+    if kind == 'input':
+        blk = edzed.Input('i', allowed=list(ALLOWED), initdef=2)
+    else:
+        blk = edzed.InputExp('i', allowed=list(ALLOWED), initdef=2, expired=0, duration=edzed.INF_TIME)
+    start_sync(circ)
+    v = env.pick(ALLOWED + (1,), 'member')
+    bad = env.pick(['list', 'dict', 'set', 'tuple', 'list-of-list'], 'shape')
+    value = {'list': [v], 'dict': {v: v}, 'set': {v}, 'tuple': (v,), 'list-of-list': [[v]]}[bad]
+    before = (blk.output, blk.get_state())
+    try:
+        r = blk.event('put', value=value)
+    except Exception as err:
+        r = err
+    env.note('unhashable-put' if bad != 'tuple' else 'hashable-non-member-put')
+    env.check('put-ret', r is False, info=lambda: (kind, value, r))
+    env.check('put-unchanged', (blk.output, blk.get_state()) == before and circ.error is None,
+              info=lambda: (blk.output, blk.get_state(), before, circ.error))
+    # the block still works
+    r2 = blk.event('put', value=3)
+    env.check('put-output', r2 is True and blk.output == 3 and circ.error is None, info=lambda: (r2, blk.output, circ.error))
+    # the same value as initdef: refused at creation
+    fresh = sync_circuit()
+    try:
+        if kind == 'input':
+            edzed.Input('j', allowed=list(ALLOWED), initdef=value)
+        else:
+            edzed.InputExp('j', allowed=list(ALLOWED), initdef=value, expired=0, duration=edzed.INF_TIME)
+        created = True
+    except ValueError:
+        created = False
+    except Exception as err:
+        created = err
+    env.check('ctor-initdef', created is False, info=lambda: (value, created))
+
+
 def scen_inputexp_default_expired(env, validator):
     """InputExp's expired value defaults to None; it is validated like any other: validators that reject None make
     the constructor refuse the block, whether None is passed explicitly or by default"""
@@ -282,6 +322,8 @@ def shards(tier):
                 out.append({'name': f'restore inputexp {tag}', 'scenario': 'scen_restore_exp', 'params': p})
                 out.append({'name': f'inputexp {tag}', 'scenario': 'scen_inputexp',
                             'params': {**p, 'n': min(nn, 2 if a else 3)}, 'cost': 5})
+    for kind in ('input', 'inputexp'):
+        out.append({'name': f'unhashable value vs allowed: {kind}', 'scenario': 'scen_unhashable', 'params': {'kind': kind}})
     for v in ('allowed', 'check', 'schema', 'allowed-with-none', 'none'):
         out.append({'name': f'inputexp default expired value, validator={v}', 'scenario': 'scen_inputexp_default_expired',
                     'params': {'validator': v}})
